@@ -25,7 +25,29 @@ def s_concat(it, a, b):
     if S.TStrC.mode == "z3":
         return V(TStr, (z3.Concat(a.t, b.t),))
     f = it.eng.ufunc("str_concat", S.StrAbs, S.StrAbs, S.StrAbs)
-    return V(TStr, (f(a.t, b.t),))
+    # concatenation is kept in a canonical right-nested form without empty literals, so that associativity and the unit
+    # law hold syntactically (no quantified axioms needed): (a + b) + c and a + (b + c) are the same term
+    empty = S.str_lit("")
+    # push concatenation inside conditionals so that each branch stays canonical
+    for x, other, left in ((a, b, True), (b, a, False)):
+        if z3.is_app(x.t) and x.t.decl().kind() == z3.Z3_OP_ITE:
+            c, t1, t2 = x.t.children()
+            r1 = s_concat(it, V(TStr, (t1,)), other) if left else s_concat(it, other, V(TStr, (t1,)))
+            r2 = s_concat(it, V(TStr, (t2,)), other) if left else s_concat(it, other, V(TStr, (t2,)))
+            return V(TStr, (z3.If(c, r1.t, r2.t),))
+
+    def flat(t):
+        if z3.is_app(t) and t.decl().name() == "str_concat":
+            return flat(t.arg(0)) + flat(t.arg(1))
+        return [] if t.eq(empty) else [t]
+
+    parts = flat(a.t) + flat(b.t)
+    if not parts:
+        return V(TStr, (empty,))
+    res = parts[-1]
+    for t in reversed(parts[:-1]):
+        res = f(t, res)
+    return V(TStr, (res,))
 
 
 def s_len(it, a):
@@ -215,7 +237,7 @@ def subscript(it, n):
     if not isinstance(c, V):
         raise OutOfSubset(f"subscript of {c!r}")
     so = c.sort
-    if isinstance(so, S.TOpt) and isinstance(so.inner, S.TRef):
+    if isinstance(so, S.TOpt) and isinstance(so.inner, (S.TRef, S.TList, S.TDict)):
         c = it.coerce(c, so.inner)
         so = c.sort
     if record_class(it, c) is not None:
@@ -835,6 +857,15 @@ def call_special(it, n):
             raise OutOfSubset("sort_source_index: no sorted() call on this path")
         k = it.coerce(it.ev(n.args[0]), TInt)
         return mk_int(it.last_sorted[2](k.t))
+    if name == "final":
+        # final("x"): the value of local x of the function under verification when it exits (for hints/postconditions)
+        nm = ast.literal_eval(n.args[0])
+        fl = getattr(it, "final_locals", None) or {}
+        if nm not in fl:
+            if len(n.args) > 1:
+                return it.ev(n.args[1])  # default for exits on which the local was never bound
+            raise OutOfSubset(f"final({nm!r}): no such local at this exit")
+        return fl[nm]
     if name == "result_of":
         # result_of("Callee", k): the value returned by the k-th call (in path order) of that contract in this function
         key = (ast.literal_eval(n.args[0]), ast.literal_eval(n.args[1]))
@@ -995,6 +1026,8 @@ def call_builtin(it, name, args, kwargs, node):
         (a,) = args
         if isinstance(a, tuple) and a[0] in ("keys", "values", "items"):
             a = a[1]
+        if isinstance(a, V) and isinstance(a.sort, S.TOpt) and isinstance(a.sort.inner, (S.TList, S.TDict, S.TSet, S.TStrC)):
+            a = it.coerce(a, a.sort.inner)
         if isinstance(a, V):
             if isinstance(a.sort, S.TList):
                 return mk_int(a.terms[0])
@@ -1373,6 +1406,10 @@ def value_method(it, base, attr, node):
             return bb(f)
         if attr == "join":
             def f(xs):
+                if isinstance(xs, V) and xs.sort is TStr:
+                    if _const_key(base) == "":
+                        return xs  # "".join(s) over the characters of a string is the string itself
+                    raise OutOfSubset("sep.join(string)")
                 lst = as_list(it, xs)
                 jf = it.eng.ufunc("str_join", zs, z3.IntSort(), z3.ArraySort(z3.IntSort(), zs), zs)
                 return V(TStr, (jf(base.t, lst.terms[0], lst.terms[1]),))
@@ -1390,8 +1427,21 @@ def value_method(it, base, attr, node):
                 return V(TStr, (it.eng.ufunc("str_" + attr, zs, zs)(base.t),))
             return bb(f)
         if attr == "format":
-            def f(*a):
+            def f(*a, **kw):
                 lit = _const_key(base)
+                if lit is not None and kw and not a:
+                    # named fields only: "{x}{y}".format(x=.., y=..)
+                    import re as _re
+
+                    pieces = _re.split(r"\{([A-Za-z_][A-Za-z_0-9]*)\}", lit)
+                    if any("{" in p or "}" in p for p in pieces[0::2]) or any(n not in kw for n in pieces[1::2]):
+                        raise OutOfSubset("str.format form")
+                    acc = mk_str(pieces[0])
+                    for name, rest in zip(pieces[1::2], pieces[2::2]):
+                        acc = s_concat(it, acc, to_str(it, kw[name]))
+                        if rest:
+                            acc = s_concat(it, acc, mk_str(rest))
+                    return acc
                 if lit is None or lit.count("{}") != len(a) or "{" in lit.replace("{}", ""):
                     raise OutOfSubset("str.format form")
                 parts = lit.split("{}")
